@@ -179,6 +179,7 @@ def check(case, rec):
                        one_to_many_md_key=case["md_key"],
                        include_collapsed_metadata=case["include_md"])
         got = observe.snapshot(r)
+        observe.check_lookups(r, got, "one-to-many collapse result")
         akey, ikey = ("samp", "obs") if axis == "sample" else ("obs", "samp")
         if sorted(got[akey]) != bins or len(set(got[akey])) != len(bins):
             bad("one-to-many-ids", "%s ids %r, expected bins %r" %
@@ -253,6 +254,7 @@ def check(case, rec):
             if case["remove_empty"]:
                 exp = exp.remove_empty("whole")
             snap = observe.snapshot(pt)
+            observe.check_lookups(pt, snap, "part %r" % (lb,))
             msg = agree(snap, exp, "part %r" % (lb,))
             if msg:
                 bad("partition-part", msg)
@@ -290,6 +292,7 @@ def check(case, rec):
                    min_group_size=case["min_group_size"],
                    include_collapsed_metadata=case["include_md"])
     got = observe.snapshot(r)
+    observe.check_lookups(r, got, "collapse result")
     akey, ikey = ("samp", "obs") if axis == "sample" else ("obs", "samp")
     exp_groups = {lb: idx for lb, idx in groups.items()
                   if len(idx) >= case["min_group_size"]}
